@@ -814,8 +814,8 @@ pub struct CorpusDoc {
 /// Repository fixtures that the CLI can take as they are (draft-07 root documents).
 pub fn fixture_corpus() -> Vec<CorpusDoc> {
     let mut v = Vec::new();
-    let mut paths: Vec<PathBuf> = vec![PathBuf::from("/repo/example.json")];
-    if let Ok(rd) = std::fs::read_dir("/repo/typify/tests/schemas") {
+    let mut paths: Vec<PathBuf> = vec![crate::report::repo_root().join("example.json")];
+    if let Ok(rd) = std::fs::read_dir(crate::report::repo_root().join("typify/tests/schemas")) {
         let mut ps: Vec<PathBuf> = rd
             .filter_map(|e| e.ok())
             .map(|e| e.path())
